@@ -225,6 +225,26 @@ def _keep_verdicts(line, keys):
     return " ".join(t for t in toks if "=" not in t or t.split("=")[0] in keys or t.startswith("step="))
 
 
+def _impl_crash(out):
+    """the crash report if the process died of a panic whose innermost non-runtime frame is in the code under test"""
+    m = re.search(r"^(panic: |fatal error: |\[signal )", out, flags=re.M)
+    if not m:
+        return None
+    rep = out[m.start():]
+    g = re.search(r"^goroutine \d+ \[running\]:\n", rep, flags=re.M)
+    if not g:
+        return None
+    for line in rep[g.end():].split("\n"):
+        if not line or line.startswith(("\t", " ")):
+            continue
+        if line.startswith(("panic(", "runtime.", "runtime/", "sync.", "sync/", "golang.org/x/sync")):
+            continue
+        if line.startswith("github.com/go-task/task/v3") and "/verifhook" not in line:
+            return rep[:6000]
+        return None
+    return None
+
+
 def run_domain(scratch, harness_bin, driver_bin, domain, seed, tier, replay=None, extra_env=None, timeout=3000, verdict_keys=None):
     out = scratch.path("out-%s-%d" % (domain, len(os.listdir(scratch.dir))))
     os.makedirs(out)
@@ -242,6 +262,14 @@ def run_domain(scratch, harness_bin, driver_bin, domain, seed, tier, replay=None
                  "rule": "race detector report", "features": {"race-report": 1}, "samples": [rep[:1500]]}
         return stats, [{"domain": domain, "index": 0, "case_line": "race.report", "case": {"race_report": rep},
                         "impl": "DATA RACE", "model": "no conflicting unsynchronised accesses (lockset discipline)"}]
+    if p.returncode == 2 and _impl_crash(p.stdout or ""):
+        # the Go runtime killed the harness process because the code under test panicked (in a goroutine
+        # the harness cannot recover, e.g. inside an errgroup): no property allows a crash
+        rep = _impl_crash(p.stdout)
+        stats = {"domain": domain, "seed": seed, "tier": tier, "evaluations": 1, "distinct_nontrivial": 1,
+                 "rule": "runtime crash report", "features": {"crash-report": 1}, "samples": [rep[:1500]]}
+        return stats, [{"domain": domain, "index": 0, "case_line": "crash.report", "case": {"crash_report": rep, "harness_args": cmd[1:]},
+                        "impl": "PANIC in the code under test", "model": "no input makes the implementation crash"}]
     if p.returncode != 0:
         raise BuildError("harness domain %s failed (rc=%d):\n%s" % (domain, p.returncode, p.stdout[-4000:]))
     t1 = time.time()
